@@ -62,6 +62,7 @@ func TestVerifC19(t *testing.T) {
 	portWriteByteFn = func(uint16, uint8) {}
 
 	nVga, nVesa := 0, 0
+	verifStats = map[string]int{}
 	for _, c := range verifReadCases() {
 		cur := &verifCur{n: c.nums}
 		switch cur.Next() {
@@ -76,6 +77,23 @@ func TestVerifC19(t *testing.T) {
 		}
 	}
 	out.Info("cases", "vga=%d vesa=%d", nVga, nVesa)
+	out.Info("monitor", "framebuffer cases inside the quantifier=%d outside (agreement only)=%d; ops checked: write in-grid=%d write off-grid=%d fill=%d fill with wrapping extent=%d scroll valid=%d scroll ignored=%d; elements/bytes with an exact demand=%d, required unchanged=%d",
+		verifStats["vesa-in"], verifStats["vesa-out"], verifStats["write-in"], verifStats["write-off"], verifStats["fill"], verifStats["fill-wrap"],
+		verifStats["scroll-valid"], verifStats["scroll-ignored"], verifStats["exact"], verifStats["unchanged"])
+}
+
+// verifStats counts what the monitor actually checked (written to the evidence).
+var verifStats map[string]int
+
+func verifCount(must []uint8) {
+	for _, v := range must {
+		switch v {
+		case 0:
+			verifStats["unchanged"]++
+		case 1:
+			verifStats["exact"]++
+		}
+	}
 }
 
 // ---------------------------------------------------------------------------------------------
@@ -118,6 +136,7 @@ func verifC19Vga(out *verifOut, id int, cur *verifCur) {
 			desc = fmt.Sprintf("vga %dx%d Write(ch=%#x,fg=%d,bg=%d,x=%d,y=%d)", W, H, ch, fg, bg, x, y)
 			panicked, pmsg = verifCall(func() { cons.Write(byte(ch), uint8(fg), uint8(bg), uint32(x), uint32(y)) })
 			if x >= 1 && x <= W && y >= 1 && y <= H {
+				verifStats["write-in"]++
 				// text mode has 16 colours; a larger value is documented to be replaced by the default
 				efg, ebg := fg, bg
 				if efg > 15 {
@@ -128,12 +147,18 @@ func verifC19Vga(out *verifOut, id int, cur *verifCur) {
 				}
 				i := (y-1)*W + (x - 1)
 				must[i], want[i] = 1, uint16(((ebg<<4|efg)<<8)|ch)
+			} else {
+				verifStats["write-off"]++
 			}
 		case 1:
 			x, y, w, h, fg, bg := cur.Next(), cur.Next(), cur.Next(), cur.Next(), cur.Next(), cur.Next()
 			desc = fmt.Sprintf("vga %dx%d Fill(x=%d,y=%d,w=%d,h=%d,fg=%d,bg=%d)", W, H, x, y, w, h, fg, bg)
 			panicked, pmsg = verifCall(func() { cons.Fill(uint32(x), uint32(y), uint32(w), uint32(h), uint8(fg), uint8(bg)) })
 			x0, y0 := verifClampOrigin(x, W), verifClampOrigin(y, H)
+			verifStats["fill"]++
+			if x0+w > 1<<32 || y0+h > 1<<32 {
+				verifStats["fill-wrap"]++
+			}
 			for cy := uint64(1); cy <= H; cy++ {
 				for cx := uint64(1); cx <= W; cx++ {
 					if cx >= x0 && cx < x0+w && cy >= y0 && cy < y0+h { // uint64: no wrap for 32-bit arguments
@@ -151,6 +176,7 @@ func verifC19Vga(out *verifOut, id int, cur *verifCur) {
 			desc = fmt.Sprintf("vga %dx%d Scroll(dir=%d,lines=%d)", W, H, dir, lines)
 			panicked, pmsg = verifCall(func() { cons.Scroll(ScrollDir(dir), uint32(lines)) })
 			if lines >= 1 && lines <= H && dir <= 1 {
+				verifStats["scroll-valid"]++
 				for cy := uint64(1); cy <= H; cy++ {
 					for cx := uint64(1); cx <= W; cx++ {
 						i := (cy-1)*W + (cx - 1)
@@ -164,7 +190,9 @@ func verifC19Vga(out *verifOut, id int, cur *verifCur) {
 						}
 					}
 				}
-			} else if dir > 1 {
+			} else if dir <= 1 {
+				verifStats["scroll-ignored"]++
+			} else {
 				for i := range must {
 					must[i] = 2 // not a scroll direction of the API: only containment is checked
 				}
@@ -183,6 +211,7 @@ func verifC19Vga(out *verifOut, id int, cur *verifCur) {
 			obs = append(obs, uint64(v))
 		}
 		// ---- monitor ----
+		verifCount(must)
 		for i := 0; i < n; i++ {
 			cx, cy := uint64(i)%W+1, uint64(i)/W+1
 			if must[i] == 0 && fb[i] != before[i] {
